@@ -11,7 +11,8 @@ THEOREMS = [
   'C17_saved (props/C02.v, C02_text_roundtrip): the emitted text of every node parses back to itself modulo canon',
 ]
 RULE = ('correspondence: every string over {SP,TAB,LF,CR,a,<,&} up to length L (exhaustive; L=5 quick, 7 thorough) plus '
-        'seeded random strings over a weighted alphabet: encoder output (child list) of the real addTextToElement vs the '
+        'seeded random strings over a weighted alphabet; EVERY code point (64 per string) through the real helper, and through the model for all '
+        'white-space, separator, control and format characters and a stride of the rest (all of them in the thorough tier): encoder output (child list) of the real addTextToElement vs the '
         'extracted Gallina encoder; random child trees: real extractText vs model; refusal kind on elements with every '
         'combination of allowed text/s/tab/line-break. oracle: extractText(addTextToElement(e,s)) == before+s on empty and '
         'non-empty elements, node cleanliness, and real save()+load() round trip. non-trivial = the string contains at '
@@ -111,6 +112,27 @@ def run(ctx):
     ctx.exhaustive.append('all %d strings over %r up to length %d' % (sum(len(ALPHA) ** n for n in range(L + 1)), ALPHA, L))
     for _ in range(1500 if ctx.quick else 20000):
         one(rand_string(ctx.rng, 60))
+    # ---- every code point: nothing but SP, TAB and LF is special to the helper -------------------------------------
+    # 64 distinct code points per string, separated by a letter; a failing string is narrowed to the single characters
+    import unicodedata
+    cps = [c for c in range(0x110000) if c not in (0x20, 0x09, 0x0A)]
+    def chunk_string(chunk): return 'x'.join(chr(c) for c in chunk)
+    n_or = n_corr = 0
+    for k in range(0, len(cps), 64):
+        chunk = cps[k:k + 64]
+        special = any(chr(c).isspace() or unicodedata.category(chr(c)) in ('Zs', 'Zl', 'Zp', 'Cc', 'Cf') for c in chunk)
+        sx = chunk_string(chunk)
+        p = text.P(); teletype.addTextToElement(p, sx); got = teletype.extractText(p)
+        ctx.oracle_cases += 1; n_or += 1
+        if got != sx or len(p.childNodes) != 1:
+            for c in chunk:
+                s1 = 'a' + chr(c) + 'b'
+                p1 = text.P(); teletype.addTextToElement(p1, s1); g1 = teletype.extractText(p1)
+                if g1 != s1 or len(p1.childNodes) != 1:
+                    ctx.violation('direct-roundtrip', {'codepoints': [ord(x) for x in s1]}, {'extract': [ord(x) for x in g1], 'children': canon_children(p1)}, 'the same string in one text node', {'chars': ['U+%04X' % c]})
+        if special or chunk[0] < 0x3100 or not ctx.quick or (k // 64) % 23 == 0:
+            ctx.corr('teletype.addTextToElement (code point sweep)', {'codepoints': chunk}, d.call('tt_encode', sx_str(sx)), canon_children(p)); n_corr += 1
+    ctx.exhaustive.append('every code point except SP/TAB/LF (1,114,109), 64 per string: round trip on the real code (%d strings); encoder output vs model on %d of them' % (n_or, n_corr))
     ctx.sample({'string': 'a  b\t c\n', 'children': canon_children_of('a  b\t c\n')})
     # ---- correspondence 2: decoder on arbitrary child trees, appended encoding ---
     for _ in range(600 if ctx.quick else 6000):
